@@ -193,6 +193,9 @@ def run_property(mod, tier, seed, only=None):
         return 2
     if only:
         specs = [s for s in specs if only in s["id"]]
+        if not specs:
+            print("HARNESS ERROR: no case id contains %r" % only)
+            return 2
     results = pmap(mod, specs)
     if hasattr(mod, "post") and not only:
         # cross-case oracles (e.g. symmetry / transitivity over a matrix of answers)
